@@ -79,7 +79,7 @@ theorem foldl_newest_ge (l : List BuildValue) : ∀ (a : Acc) (v : BuildValue), 
 theorem provide_can_mono (a : Acc) (v : BuildValue) : (provide a v).canUpdateIfNewer = true → a.canUpdateIfNewer = true := by
   unfold provide
   split
-  · exact id
+  · intro h; simp only [Bool.and_eq_true] at h; exact h.1
   · split
     · intro h; cases h
     · split <;> exact id
@@ -110,6 +110,29 @@ theorem foldl_can_missing (l : List BuildValue) : ∀ (a : Acc) (v : BuildValue)
         rw [provide_can_missing a v hk hm] at this
         cases this
     · exact ih _ v hv hk hm
+
+/-- F43: a failed / skipped / missing input clears `canUpdateIfNewer` -/
+theorem provide_can_bad (a : Acc) (v : BuildValue) (hk : okInputKinds.contains v.kind = false) :
+    (provide a v).canUpdateIfNewer = false := by
+  have hb : badInputDisablesUpdateIfNewer = true := by decide
+  unfold provide
+  simp only [hk, hb, Bool.not_false, Bool.not_true, Bool.and_false, ↓reduceIte]
+
+/-- an input that failed, was skipped or is missing disables the shortcut, wherever it arrives in the sequence -/
+theorem foldl_can_bad (l : List BuildValue) : ∀ (a : Acc) (v : BuildValue), v ∈ l →
+    okInputKinds.contains v.kind = false → (l.foldl provide a).canUpdateIfNewer = false := by
+  induction l with
+  | nil => intro a v hv; cases hv
+  | cons x xs ih =>
+    intro a v hv hk
+    rcases List.mem_cons.1 hv with rfl | hv
+    · cases h : (List.foldl provide (provide a v) xs).canUpdateIfNewer with
+      | false => simpa using h
+      | true =>
+        have := foldl_can_mono xs _ h
+        rw [provide_can_bad a v hk] at this
+        cases this
+    · exact ih _ v hv hk
 
 theorem provide_skip_mono (a : Acc) (v : BuildValue) : a.shouldSkip = true → (provide a v).shouldSkip = true := by
   unfold provide
